@@ -37,7 +37,7 @@ class C02(Prop):
                         "depth=limit", "surrogate_pair"]
 
     def budget(self, tier):
-        return {"workers": 14, "examples": 250 if tier == "quick" else 12000}
+        return {"workers": 14, "examples": 1200 if tier == "quick" else 12000}
 
     def strategy(self, tier):
         leaves = gens.scalars_text()
@@ -53,7 +53,7 @@ class C02(Prop):
         return st.fixed_dictionaries({
             "jv": docs,
             "rseed": st.integers(0, 2 ** 32 - 1),
-            "bom": st.integers(0, 3).map(lambda x: x == 0),
+            "bom": gens.chance(4),
             "lead": wsb,
             "trail": wsb,
             "style": st.sampled_from([None, None, "raw", "u", "short"]),
